@@ -26,7 +26,25 @@ def explore(core, rng, tier, seed, search=False):
     # (b) native executions (API-level events only), also under the race detector
     t2 = traceprop.explore(core, ID + "native", [["mapstress", rng.randrange(1 << 30), nr]], min_events=4, judge="ObjLin", with_corpus=False,
                            race_cmds=[["mapstress", rng.randrange(1 << 30), 300 if tier == "quick" else 5000]])
-    return merge(merge(r, t), t2)
+    r = merge(merge(r, t), t2)
+    # (c) the simulation relation R of the concurrent proof evaluated along random runs of the MODEL (no implementation involved):
+    #     a regression test of the definitions the C04.conc_* theorems are about (a failure would be an internal inconsistency)
+    import os
+    wd = os.path.join(core.WORK, ID)
+    os.makedirs(wd, exist_ok=True)
+    wf = os.path.join(wd, "walks.ann")
+    nw = 600 if tier == "quick" else 20000
+    with open(wf, "w") as f:
+        f.write("reset\n")
+        for _ in range(nw):
+            f.write("walk %d %d %d %d %d => ok\n" % (rng.randrange(1 << 30), rng.choice([2, 3, 3, 4, 5]), rng.choice([100, 300, 600]), rng.choice([1, 1, 2, 2, 3]), rng.choice([0, 0, 1])))
+    w = core.judge_file("C04inv", wf)
+    if w["bad"]:
+        raise core.Internal("the simulation relation R fails on a run of the model (contradicts C04.conc_*): %s" % (w["bad"][0],))
+    r["summary"]["lines"] = str(int(r["summary"]["lines"]) + int(w["summary"]["lines"]))
+    r["summary"]["ok"] = str(int(r["summary"]["ok"]) + int(w["summary"]["ok"]))
+    r["stats"]["invariant_walks"] = {"runs": nw, "judge": "C04inv", "all_ok": True}
+    return r
 
 
 def merge(r, t):
